@@ -1,6 +1,6 @@
 (* The callback relay of the pub/sub managers, step by step at the level of the two hosts involved:
    emit(..., to=sid, callback=cb) on host i for a client that lives on host o <> i. *)
-From VT Require Import Manager.ManagerProofs Manager.RoomsProofs Manager.AckProofs Base.PyStrProofs Check.C03Check Check.C06Check.
+From VT Require Import Manager.ManagerProofs Cluster.RoomsFacts Manager.AckProofs Base.PyStrProofs Check.C06Check.
 From VT Require Import Cluster.PubSub Cluster.ClusterLemmas.
 From Coq Require Import Lia.
 Open Scope N_scope.
@@ -35,6 +35,15 @@ Proof.
   erewrite bM_ok; [|rewrite emit_one_some; cbn [fst snd]; rewrite G; reflexivity]. reflexivity.
 Qed.
 
+Lemma singleton_list' {A} (x : A) l : NoDup l -> (forall y, In y l <-> y = x) -> l = [x].
+Proof.
+  intros Hn H. destruct l as [|a l]; [exfalso; apply (proj2 (H x) eq_refl)|].
+  assert (a = x) by (apply H; left; reflexivity). subst a. f_equal.
+  destruct l as [|b l]; [reflexivity|]. exfalso.
+  assert (b = x) by (apply H; right; left; reflexivity). subst b.
+  inversion Hn as [|? ? Hni _]; subst. apply Hni. left; reflexivity.
+Qed.
+
 (* the participants of a client's own room *)
 Lemma parts_of_none m ns sid :
   WF m -> sid <> [] -> (forall s', mem m ns (PStr sid) s' = None) -> parts_of m ns (PStr sid) = Ok [].
@@ -53,7 +62,7 @@ Proof.
   destruct (ns_rooms m ns) eqn:En; [|apply ns_rooms_of_mem in Hm; congruence].
   rewrite (participants_scalar m ns (PStr sid) (room_ok_sid sid Hs)). f_equal.
   pose proof (struct_look m ns (PStr sid) (proj1 HW)) as Hb.
-  apply singleton_list.
+  apply singleton_list'.
   - eapply NoDup_map_inv. exact Hb.
   - intros [s' e']. split.
     + intro Hi. apply (bd_get_in _ _ _ Hb) in Hi. pose proof (Hal s' e' Hi) as Hs'. subst s'.
